@@ -276,7 +276,41 @@ func (c *stChild) stop() {
 
 // ---- the scenario
 
+// stScanLock: a unit that exists on disk only, whose lock file another process has open (a detached runner); the node
+// looks the unit up (findUnit → scanForUnit → Load / Restart).  The lock of a record is the lock *file*: afterwards the
+// path must still name the very file the other process holds, or the two no longer exclude each other.
+func stScanLock() interface{} {
+	dir, err := os.MkdirTemp("", "verif-status-*")
+	if err != nil {
+		panic(err)
+	}
+	defer os.RemoveAll(dir)
+	vw := verifNewWorld(dir)
+	defer vw.close()
+	_ = vw.w.RegisterWorker("verif", verifNewUnit, false)
+	unitdir := path.Join(vw.w.dataDir, "ondisk01")
+	if err := os.MkdirAll(unitdir, 0o700); err != nil {
+		panic(err)
+	}
+	sfd := &StatusFileData{State: WorkStateRunning, Detail: "Running: PID 1", WorkType: "verif"}
+	if err := sfd.Save(path.Join(unitdir, "status")); err != nil {
+		return map[string]interface{}{"error": err.Error()}
+	}
+	held, err := os.Open(path.Join(unitdir, "status.lock"))
+	if err != nil {
+		return map[string]interface{}{"error": "the record has no lock file: " + err.Error()}
+	}
+	defer held.Close()
+	before, _ := held.Stat()
+	_, uerr := vw.w.UnitStatus("ondisk01")
+	after, serr := os.Stat(path.Join(unitdir, "status.lock"))
+	return map[string]interface{}{"known": uerr == nil, "same_lock_file": serr == nil && os.SameFile(before, after)}
+}
+
 func stApply(op string, raw json.RawMessage) interface{} {
+	if op == "scanlock" {
+		return stScanLock()
+	}
 	if op != "run" {
 		return map[string]interface{}{"error": "bad op"}
 	}
@@ -649,7 +683,12 @@ func stGen(v *verifRun) {
 	}
 }
 
+func stGenAll(v *verifRun) {
+	stGen(v)
+	v.do(stApply, "scanlock", map[string]interface{}{})
+}
+
 func TestVerifStatus(t *testing.T) {
 	v := verifOpen(t, "status")
-	v.run(stApply, stGen)
+	v.run(stApply, stGenAll)
 }
